@@ -29,7 +29,7 @@ CHECK_DEADLOCK FALSE
 
 TRACE_CFG = """SPECIFICATION TraceSpec
 CONSTANT Mailbox = {%(mbs)s}
-INVARIANTS TypeOK RemovesExactlyExpired ZeroNeverDeletes
+INVARIANTS TypeOK RemovesExactlyExpired ZeroNeverDeletes LateBoundWhenSleeping
 POSTCONDITION TraceAccepted
 CHECK_DEADLOCK FALSE
 """
@@ -129,11 +129,25 @@ def concretise(beh, store, period_h, names, rng, label, idx):
             if how == "sleep":
                 sleep = max(sleep, 250)
             elif how == "between":
-                sleep = max(sleep, rng.choice([0, 25]))
+                sleep = max(sleep, rng.choice([0, 25, 25]))
             elif how == "before":
-                sleep = max(sleep, rng.choice([0, 20]))
+                sleep = max(sleep, rng.choice([0, 20, 20]))
     return {"id": "%s-%d-%s-p%d" % (label, idx, store, period), "store": store, "names": names, "period_h": period, "sleep_ms": sleep,
             "init": init, "mode": mode, "steps": steps, "size": rng.choice([200, 900, 5000]), "_abs": beh}
+
+
+def refill_variants(behs):
+    """for undisturbed scans over a mailbox with expired mail: the mailbox is purged and refilled with young mail between the scan's
+    look at it and its k-th removal there (the ids the scan holds are stale then; nothing young may go)"""
+    out = []
+    for b in behs:
+        nold = sum(1 for ages in b["init"] for a in ages if a > b["period_h"])
+        if b["steps"] or b["mode"] != "scan" or nold == 0 or b["period_h"] == 0:
+            continue
+        for k in range(1, min(nold, 2) + 1):
+            v = dict(b, id=b["id"] + "-refill%d" % k, steps=[{"c": "env", "op": "refill", "tc": "next", "ti": 0, "site": "r", "x": "", "k": k, "age": 0}])
+            out.append(v)
+    return out
 
 
 def behaviours_from(run, abstract, label, stores, periods):
@@ -261,6 +275,7 @@ def c12(run, args):
     rotp = lambda i: [[1, 24][(i + run.seed) % 2]]
     bothp = lambda i: [1, 24]
     beh = behaviours_from(run, und, "und", both, rotp if quick else bothp)
+    beh += refill_variants(beh)
     beh += behaviours_from(run, env, "env", both, rotp)
     canb = behaviours_from(run, can, "can", both, rotp)
     # promptness probes: with a long retentionSleep and several mailboxes still to go, a scan that ignored the shutdown
